@@ -224,6 +224,47 @@ def fromV3Kids {V : Type} : List (Slot × Sch V) → List (Slot × Sch V)
   | (sl, c) :: rest => (sl, if sl = Slot.addl then c else fromV3S c) :: fromV3Kids rest
 end
 
+/-- FromV3SchemaRef returns no schema (but a form-data *parameter*) for a string/binary schema and for a
+    reference to a component schema whose format is binary; the caller then drops the property / items /
+    allOf entry, loses the response or body schema, or — in FromV3Parameter — dereferences nil. -/
+def consO {V : Type} (sl : Slot) (o : Option (Sch V)) (rest : List (Slot × Sch V)) : List (Slot × Sch V) :=
+  match o with | some c => (sl, c) :: rest | none => rest
+
+mutual
+/-- FromV3SchemaRef, first component of its result (`none` = nil); `bin` = names of the component schemas
+    whose format is binary -/
+def fromV3SO {V : Type} (bin : List String) : Sch V → Option (Sch V)
+  | .ref k n => if k = RK.def3 ∧ bin.contains n then none else some (.ref (fromV3RK k) n)
+  | .node h kids =>
+    if h.ty = some "string" ∧ h.fmt = some "binary" then none
+    else some (.node (fromV3Hd h) (fromV3KidsO bin kids))
+def fromV3KidsO {V : Type} (bin : List String) : List (Slot × Sch V) → List (Slot × Sch V)
+  | [] => []
+  | (sl, c) :: rest =>
+    if sl = Slot.addl then (sl, c) :: fromV3KidsO bin rest
+    else consO sl (fromV3SO bin c) (fromV3KidsO bin rest)
+end
+
+mutual
+/-- no string/binary schema and no reference to a binary component outside additionalProperties sub-schemas -/
+def noBinary3 {V : Type} (bin : List String) : Sch V → Bool
+  | .ref k n => !(k = RK.def3 ∧ bin.contains n)
+  | .node h kids => !(h.ty = some "string" ∧ h.fmt = some "binary") && noBinary3Kids bin kids
+def noBinary3Kids {V : Type} (bin : List String) : List (Slot × Sch V) → Bool
+  | [] => true
+  | (sl, c) :: rest => (if sl = Slot.addl then true else noBinary3 bin c) && noBinary3Kids bin rest
+end
+
+mutual
+/-- a v2 schema without `type: file` and without `format: binary` strings (outside additionalProperties) -/
+def noBinary2 {V : Type} : Sch V → Bool
+  | .ref _ _ => true
+  | .node h kids => !(h.ty == some "file") && !(h.ty == some "string" && h.fmt == some "binary") && noBinary2Kids kids
+def noBinary2Kids {V : Type} : List (Slot × Sch V) → Bool
+  | [] => true
+  | (sl, c) :: rest => (if sl = Slot.addl then true else noBinary2 c) && noBinary2Kids rest
+end
+
 mutual
 /-- the side effect of one FromV3SchemaRef pass on its *input*: `schema.Value.Nullable = false` on every
     schema it visits (additionalProperties sub-schemas are not visited) -/
@@ -521,6 +562,32 @@ def fromV3Resp {V : Type} : RRef3 V → RRef2 V
   | .val r => .val { desc := r.desc,
                      headers := r.headers.map (fun (n, h) => (n, { fromV3Param h with name := "", loc := "" })),
                      schema := if r.mimes.contains "application/json" then r.schema.map fromV3S else none }
+
+/-- FromV3Parameter as executed: `none` = nil dereference (`schemaRefV2.Ref` on the nil schema FromV3SchemaRef
+    returns for a string/binary schema) -/
+def fromV3ParamO {V : Type} (bin : List String) (p : Param3 V) : Option (Param2 V) :=
+  match fromV3SO bin p.schema with
+  | none => none
+  | some (.ref k n) => some { name := p.name, loc := p.loc, required := p.required, cons := {}, items := none,
+                              schema := some (.ref k n) }
+  | some (.node h kids) =>
+    some { name := p.name, loc := p.loc, required := p.required,
+           cons := { ty := h.ty, fmt := h.fmt, sc := conv fromV3ParamTable h.sc },
+           items := kidItems kids, schema := none }
+
+def fromV3PRefO {V : Type} (bin : List String) : PRef3 V → Option (PRef2 V)
+  | .ref k n => some (.ref (fromV3RK k) n)
+  | .val p => (fromV3ParamO bin p).map PRef2.val
+
+/-- FromV3Response as executed (`none` = panic in FromV3Headers) -/
+def fromV3RespO {V : Type} (bin : List String) : RRef3 V → Option (RRef2 V)
+  | .ref k n => some (.ref (fromV3RK k) n)
+  | .val r =>
+    match r.headers.mapM (fun (nh : String × Param3 V) =>
+        (fromV3ParamO bin nh.2).map (fun h => (nh.1, { h with name := "", loc := "" }))) with
+    | none => none
+    | some hs => some (.val { desc := r.desc, headers := hs,
+                              schema := if r.mimes.contains "application/json" then r.schema.bind (fromV3SO bin) else none })
 
 structure RespA (V : Type) where
   desc : String
@@ -915,12 +982,13 @@ def isBinary {V : Type} : Sch V → Bool
   | .ref _ _ => false
   | .node h _ => h.ty == some "string" && h.fmt == some "binary"
 
-def fromV3FileParam {V : Type} (cs : CSchema V) : PRef2 V :=
+def fromV3FileParam {V : Type} (key : String) (cs : CSchema V) : PRef2 V :=
   match cs.schema with
   | .ref k n => .ref k n
   | .node h _ =>
     let nm := cs.formName.getD ""
-    .val { name := nm, loc := "formData", required := h.req.contains nm,
+    -- FromV3Schemas: a parameter without a name is named after the component
+    .val { name := if nm = "" then key else nm, loc := "formData", required := h.req.contains nm,
            cons := { ty := some "file", sc := conv fromV3FileTable h.sc }, items := none, schema := none }
 
 /-- FromV3Parameter -/
@@ -928,47 +996,76 @@ def fromV3PRef {V : Type} : PRef3 V → PRef2 V
   | .ref k n => .ref (fromV3RK k) n
   | .val p => .val (fromV3Param p)
 
+/-- FromV3RequestBodyFormData, one inline property, as executed (items through FromV3SchemaRef) -/
+def fromV3FormPropO {V : Type} (bin : List String) (name : String) (s : Sch V) : PRef2 V :=
+  match s with
+  | .ref k n => .ref (if k = RK.def3 then RK.par2 else k) n
+  | .node h kids =>
+    .val { name := name, loc := "formData", required := h.req.contains name,
+           cons := { ty := if h.fmt = some "binary" then some "file" else h.ty, fmt := none,
+                     sc := conv fromV3FormTable h.sc },
+           items := (kidItems kids).bind (fromV3SO bin), schema := none }
+
 /-- fromV3RequestBodies + FromV3RequestBody / FromV3RequestBodyFormData for an operation.
     The content map is ranged over in Go map order; with one media type (or all of one kind) the result
     is order-independent: that is the modelled fragment. -/
-def fromV3Body {V : Type} (shared : Bool) (origName : String) : BRef3 V → List (PRef2 V)
+def fromV3Body {V : Type} (bin : List String) (shared : Bool) (origName : String) : BRef3 V → List (PRef2 V)
   | .ref k n => [.ref (fromV3RK k) n]
   | .val b =>
     if b.mimes.any isFormMime then
       match b.schema with
       | some (.node _ kids) => kids.filterMap (fun (sl, s) => match sl with
-          | .prop name => some (fromV3FormProp name s) | _ => none)
+          | .prop name => some (fromV3FormPropO bin name s) | _ => none)
       | _ => []
     else if b.mimes.isEmpty then []
     else [.val { name := origName, loc := "body", required := b.required, cons := {}, items := none,
                  -- one FromV3SchemaRef pass per media type over the *same* schema object; an operation keeps
                  -- the first result, a shared body the last one — converted after the first pass has
                  -- cleared `nullable` in place
-                 schema := b.schema.map (fun s =>
-                   if shared && (b.mimes.filter (fun m => !isFormMime m)).length ≥ 2 then fromV3S (dropNullable s)
-                   else fromV3S s) }]
+                 schema := b.schema.bind (fun s =>
+                   if shared && (b.mimes.filter (fun m => !isFormMime m)).length ≥ 2 then fromV3SO bin (dropNullable s)
+                   else fromV3SO bin s) }]
 
-def fromV3Op {V : Type} (op : Op3 V) : Op2 V :=
-  { method := op.method, opId := op.opId,
-    consumes := match op.body with | some (.val b) => sortStrs b.mimes | _ => [],
-    produces := [],
-    params := op.params.map fromV3PRef ++ (match op.body with | none => [] | some b => fromV3Body false "body" b),
-    responses := op.responses.map (fun (k, r) => (k, fromV3Resp r)) }
+def fromV3Op {V : Type} (bin : List String) (op : Op3 V) : Option (Op2 V) :=
+  match op.params.mapM (fromV3PRefO bin), op.responses.mapM (fun (kr : String × RRef3 V) =>
+      (fromV3RespO bin kr.2).map (fun r => (kr.1, r))) with
+  | some ps, some rs =>
+    some { method := op.method, opId := op.opId,
+           consumes := match op.body with | some (.val b) => sortStrs b.mimes | _ => [],
+           produces := [],
+           params := ps ++ (match op.body with | none => [] | some b => fromV3Body bin false "body" b),
+           responses := rs }
+  | _, _ => none
 
-/-- FromV3 -/
-def fromV3 {V : Type} (d : Doc3 V) : Doc2 V :=
-  { loc := fromV3Servers d.servers, consumes := [], produces := [],
-    params :=
-      (d.cschemas.filter (fun (_, c) => isBinary c.schema)).map (fun (k, c) => (k, fromV3FileParam c)) ++
-      d.cparams.map (fun (k, p) => (k, fromV3PRef p)) ++
-      d.cbodies.flatMap (fun (k, b) => (fromV3Body true k b).map (fun p =>
-        match p with
-        | .val q => if q.loc = "formData" then (q.name, p) else (k, p)
-        | _ => (k, p))),
-    responses := d.cresponses.map (fun (k, r) => (k, fromV3Resp r)),
-    defs := (d.cschemas.filter (fun (_, c) => !isBinary c.schema)).map (fun (k, c) => (k, fromV3S c.schema)),
-    secs := d.secs.filterMap (fun (k, s) => match fromV3Sec s with | .ok t => some (k, t) | _ => none),
-    paths := d.paths.map (fun p => { path := p.path, params := p.params.map fromV3PRef, ops := p.ops.map fromV3Op }) }
+def fromV3Path {V : Type} (bin : List String) (p : Path3 V) : Option (Path2 V) :=
+  match p.params.mapM (fromV3PRefO bin), p.ops.mapM (fromV3Op bin) with
+  | some ps, some ops => some { path := p.path, params := ps, ops := ops }
+  | _, _ => none
+
+def isBinaryFmt {V : Type} : Sch V → Bool
+  | .ref _ _ => false
+  | .node h _ => h.fmt == some "binary"
+
+/-- FromV3 (`none` = panic) -/
+def fromV3 {V : Type} (d : Doc3 V) : Option (Doc2 V) :=
+  let bin := (d.cschemas.filter (fun (_, c) => isBinaryFmt c.schema)).map (·.1)
+  match d.paths.mapM (fromV3Path bin), d.cparams.mapM (fun (kp : String × PRef3 V) => (fromV3PRefO bin kp.2).map (fun p => (kp.1, p))),
+        d.cresponses.mapM (fun (kr : String × RRef3 V) => (fromV3RespO bin kr.2).map (fun r => (kr.1, r))) with
+  | some paths, some cps, some crs =>
+    some {
+      loc := fromV3Servers d.servers, consumes := [], produces := [],
+      params :=
+        (d.cschemas.filter (fun (_, c) => isBinary c.schema)).map (fun (k, c) => (k, fromV3FileParam k c)) ++
+        cps ++
+        d.cbodies.flatMap (fun (k, b) => (fromV3Body bin true k b).map (fun p =>
+          match p with
+          | .val q => if q.loc = "formData" then (q.name, p) else (k, p)
+          | _ => (k, p))),
+      responses := crs,
+      defs := (d.cschemas.filter (fun (_, c) => !isBinary c.schema)).filterMap (fun (k, c) => (fromV3SO bin c.schema).map (fun s => (k, s))),
+      secs := d.secs.filterMap (fun (k, s) => match fromV3Sec s with | .ok t => some (k, t) | _ => none),
+      paths := paths }
+  | _, _, _ => none
 
 /-! ### the abstract API -/
 
